@@ -24,6 +24,8 @@ EXTENDS Typing, TLC, Json
 CONSTANTS MaxDepth,      \* operator nesting allowed in a generated expression
           MaxActive,     \* how many slots get a generated expression (others: default)
           Slots,         \* subset of AllSlots that may be active / violated
+          LeafNames,     \* names of the leaves the generator may mention
+          IntConsts,     \* integer literals the generator may use
           Emit           \* BOOLEAN
 
 VARIABLES prog, phase, active, vslot, vpath, viol
@@ -32,25 +34,7 @@ vars == <<prog, phase, active, vslot, vpath, viol>>
 
 Enums == {"Ea", "Eb", "Ec"}
 
-Leaves == <<
-  [name |-> "a",   decl |-> "UInt",   en |-> ""],
-  [name |-> "b",   decl |-> "Int",    en |-> ""],
-  [name |-> "c",   decl |-> "Bcd",    en |-> ""],
-  [name |-> "f",   decl |-> "Flag",   en |-> ""],
-  [name |-> "g",   decl |-> "Flag",   en |-> ""],
-  [name |-> "e",   decl |-> "Enum",   en |-> "Ea"],
-  [name |-> "h",   decl |-> "Enum",   en |-> "Eb"],
-  [name |-> "s",   decl |-> "Struct", en |-> ""],
-  [name |-> "r",   decl |-> "Array",  en |-> ""],
-  [name |-> "s.x", decl |-> "UInt",   en |-> ""],
-  [name |-> "vi",  decl |-> "VInt",   en |-> ""],
-  [name |-> "vb",  decl |-> "VBool",  en |-> ""],
-  [name |-> "ve",  decl |-> "VEnum",  en |-> "Ea"],
-  [name |-> "p",   decl |-> "PUInt",  en |-> ""],
-  [name |-> "pj",  decl |-> "PInt",   en |-> ""],
-  [name |-> "q",   decl |-> "PEnum",  en |-> "Ea"] >>
-
-LeafSet == {Leaves[i] : i \in 1..Len(Leaves)}
+LeafSet == {Leaves[i] : i \in {j \in 1..Len(Leaves) : Leaves[j].name \in LeafNames}}
 
 AllSlots == <<"start", "size", "len", "cond", "enumv", "virt", "sreq", "freq",
               "amax", "asig", "abo", "atxt", "arg1", "arg2">>
@@ -123,8 +107,6 @@ Paths(e) ==
 \* type-directed choices for one hole
 TagType(tag) == CASE tag = "Int" -> TInt [] tag = "Bool" -> TBool [] tag \in Enums -> TEnum(tag)
 
-IntConsts == {0, 1, 2, 3, 8}
-
 EnumsIn(c) == IF c = "CA" THEN {"Eb", "Ec"} ELSE Enums
 
 LeafChoices(tag, c) ==
@@ -181,7 +163,10 @@ SlotConstraint(slot, e) ==
     [] OTHER -> TRUE
 
 ---------------------------------------------------------------------------
-CaseOf(kind) == [kind |-> kind, prog |-> prog', viol |-> viol',
+\* (the leaves are the fixed skeleton; they are not repeated in every printed case.  `base' is the
+\* sealed program the violation was applied to, so the harness can pair them.)
+Slim(pr) == [sites |-> pr.sites, args |-> pr.args]
+CaseOf(kind) == [kind |-> kind, prog |-> Slim(prog'), base |-> Slim(prog), viol |-> viol',
                  wt |-> WellTyped(prog'), errs |-> Errors(prog')]
 EmitCase(kind) == IF Emit THEN PrintT(ToJson(CaseOf(kind))) ELSE TRUE
 
@@ -220,9 +205,14 @@ Seal ==
   /\ UNCHANGED <<prog, active, vslot, vpath, viol>>
   /\ EmitCase("base")
 
+\* the generator may break a rule anywhere; the exhaustive model check breaks it in the
+\* generated expression(s) (or anywhere in the all-default program)
+VSlots == LET base == IF Emit \/ active = {} THEN Slots ELSE active
+          IN  base \cup (IF {"arg1", "arg2"} \subseteq base THEN {"args"} ELSE {})
+
 PickSite ==
   /\ phase = "sealed"
-  /\ \E s \in Slots \cup (IF {"arg1", "arg2"} \subseteq Slots THEN {"args"} ELSE {}) : vslot' = s
+  /\ \E s \in VSlots : vslot' = s
   /\ phase' = "site"
   /\ UNCHANGED <<prog, active, vpath, viol>>
 
